@@ -138,6 +138,12 @@ func VerifH_C09_L2_crash() {
 	}
 	if hasOrphan && !orphanCached {
 		vz.Cover("orphan-not-yet-visible")
+		// the Job's own task, created by an interrupted pass and not yet in the pod cache,
+		// occupies the name: that is a reason to retry, never a terminal admission error
+		if p.out != nil {
+			_, marked := jobutil.GetAdmissionErrorMessage(p.out)
+			vz.Assert(!marked, "C09/L2/own-unseen-task-is-not-an-admission-error")
+		}
 	}
 	// nothing recorded is ever forgotten, and recorded times are never cleared
 	for i, r := range j.refs {
